@@ -78,57 +78,72 @@ claim("C08", "other",
       "DESIGN.md 4/C08, 12.3")
 
 claim("C09", "other",
-      "guard dominance + def-use provenance of the cached entry, version-guard effectiveness, who-may-call table (AST)",
-      "Partial: the reuse discipline the equality rests on - cached entry looked up by the file's own root-relative key only, reuse "
-      "dominated by the checksum comparison with the scanned file's bytes, effective version guard (the compared field is restored by "
-      "the reader or read from the document), version refusal in report/findings, result rebuilt from the walk. Equality of cached and "
-      "fresh reports over edit histories is NOT decided.",
-      "Trusted: md5 of file bytes identifies content; CPython ast.",
-      "DESIGN.md 4/C09")
+      "abstract interpretation of scan_path with a cached report on a virtual file system, of _read_cached_report / read_report on cache documents; who-may-call table for the reader (AST)",
+      "Partial: scan_path evaluated with a cached report reuses exactly the entry stored under the file's own root-relative path whose "
+      "checksum equals the file's (the file is not read), analyses every other file again (changed checksum; same bytes recorded under "
+      "another path), drops entries of files that are gone or excluded and leaves the cached object untouched; the cache reader hands "
+      "out a report only for a document of the running version (another version, a patch release, trailing blank, no key, null, not "
+      "JSON, absent file: none); report/findings read only through the version-gated reader. Equality of cached and fresh reports over "
+      "arbitrary edit histories is decided only through these single-step rules (plus C10-R5's scan histories), not in general.",
+      "Trusted: md5 of file bytes identifies content (the hash is a stub in the model); the virtual file system; sa.absint.",
+      "DESIGN.md 4/C09, 13")
 
 claim("C10", "other",
-      "must-handle rule with an exception catalogue computed from the reader's constructs, resolved through callers; all-or-nothing reader; write-idempotence rules (AST)",
-      "Mechanism: every cache read/parse on the scan path is enclosed by a handler covering the catalogue of exceptions those operations "
-      "raise on arbitrary bytes and continues as 'no cache'; the reader has no swallowing handler (a rejected cache cannot taint); the "
-      "cache write is unconditional, whole-document, truncating (no 'x'/'a'), directory creation idempotent. Byte equality with the fresh "
-      "report is not decided.",
-      "Trusted: exception behaviour of json.loads / subscripting / text-mode reads; write_text truncates.",
-      "DESIGN.md 4/C10")
+      "abstract interpretation of scan_command end to end on a virtual file system over the crash states of its own recorded writes, structural faults of the cache document and the closure of reached states; must-handle and write-discipline rules (AST)",
+      "Bounded-exhaustive on a three-file tree: the whole command (cache read, walk, reuse, report, cache write) is interpreted; the "
+      "file-system operations of a first scan and of a re-scan are recorded and every state an interruption can leave is generated from "
+      "them - after each operation, each write cut after every character (quick: every seventh offset and both ends) - plus structural "
+      "faults: empty, not JSON, other JSON types, undecodable bytes, every key of every level missing, every value replaced by null / a "
+      "string or number / a list / an object, directory without document, without or with empty marker files; from each state, and "
+      "from every state reached (closure = interleavings of faults and scans), the next scan completes, writes exactly the fresh-scan "
+      "document and leaves document and both markers. Two genuine defects found by this rule were repaired (d97359d, 2d84a53). Larger "
+      "trees, OSError on the read and concurrent scans are not covered.",
+      "Trusted: the virtual file system's model of pathlib (write_text truncates, mkdir, replace); json.loads/dumps; the measuring stub; sa.absint.",
+      "DESIGN.md 4/C10, 13")
 
 claim("C11", "other",
-      "walker analysis: in-place pruning, dot-predicate folding on name classes, complete guard set between loop head and analysing call, provenance, who-may-call (AST)",
-      "Selection logic decided structurally: directories pruned in place and files filtered by exactly 'starts with a dot'; the only "
-      "reasons a file is skipped are is_excluded(root-relative path, generate_exclude_spec(root)), ClassNotFound, unsupported language; "
-      "the spec has all three sources, accumulated not rebound; entries keyed by relpath with checksum of bytes; analysing functions "
-      "called only from guarded sites. gitignore semantics and the name->lexer map are trusted.",
-      "Trusted: os.walk honours in-place edits only; pathspec; pygments lexer lookup.",
-      "DESIGN.md 4/C11")
+      "abstract interpretation of scan_path and generate_exclude_spec on a virtual tree with one representative per reason of the property; who-may-call table (AST)",
+      "Selection evaluated: on a virtual tree with hidden directories at two depths, hidden file, excluded file at the top and below, "
+      "excluded directory, name without lexer, lexer of an unsupported language, private-looking and extension-less names and supported "
+      "files at three depths, exactly the qualifying files reach the analysing function, each once, for the root given absolute, "
+      "relative, from the parent and with a '..' segment; the exclusion test receives root-relative paths and the spec of that root; the "
+      "spec is built, in order, from the built-in exclusions, the configured ones and <root>/.gitignore, nothing accumulating between "
+      "calls; entries keyed by root-relative path with the file's checksum and language. gitignore semantics and the name->lexer map "
+      "are trusted.",
+      "Trusted: the virtual file system's model of os.walk (in-place pruning honoured); pathspec; pygments lexer lookup; sa.absint.",
+      "DESIGN.md 4/C11, 13")
 
 claim("C03", "other",
-      "per-mechanism must-guard / dominance rules, mandatory-atom analysis of pattern trees, exhaustive ambiguity exploration (C15 engine), loop-variant and recursion tables (AST + call graph)",
-      "Partial: one exact rule per failure mechanism named by the property - decoding fallback must be total, lexer lookup and "
-      "registry access guarded, an exclusive end never subscripts without a length bound, relative_to handled or provably contained, "
-      "every header pattern has a mandatory Name atom, the ambiguity raise is unreachable (exhaustive, same exploration as C15), every "
-      "while loop has a variant and every recursion is admitted or guarded. That no other subscript/.index raises is NOT decided.",
-      "Trusted: exception behaviour of open/relative_to/get_lexer_for_filename; latin-1 is total; pygments lexers terminate.",
-      "DESIGN.md 4/C03")
+      "abstract interpretation of scan_path / check_command on a virtual file system with undecodable files (totality), of bracket matching on all short sequences, exhaustive ambiguity exploration (C15 engine); per-mechanism must-guard rules as the structural layer (AST + call graph)",
+      "Partial: scan and check evaluated to the end on a virtual tree in which every file's bytes are invalid UTF-8 and which holds names "
+      "without lexer, an unsupported language, hidden and excluded entries, reached as root, relative root, sub-directory, file inside "
+      "and outside the working directory (a sibling whose name extends the working directory's): no exception escapes; block matching "
+      "raises nothing on any sequence over {open, close, other} up to length 4; every header pattern has a mandatory Name atom; the "
+      "ambiguity raise is unreachable (exhaustive, as C15); every while loop has a variant and every recursion is admitted or guarded. "
+      "That no other subscript/.index in the language modules raises on real token streams is NOT decided.",
+      "Trusted: the virtual file system's model of pathlib / os.walk / open; latin-1 is total; pygments lexers terminate; sa.absint.",
+      "DESIGN.md 4/C03, 13")
 
 claim("C07", "other",
-      "symbolic effects of the accumulators (linear forms), abstract evaluation of the profile functions, guard dominance for tree maintenance, aggregation-order and stale-memo rules (AST)",
+      "symbolic effects of the accumulators (linear forms), abstract interpretation of Codebase.add_file / aggregate on a tree built through the repo's constructors (reference comparison), instance-isolation of the accumulators, aggregation-order and stale-memo rules (AST)",
       "Agreement of the redundant views: LanguageTotals.add evaluated symbolically (files += 1, loc += entry.loc, functions += len(ms), "
       "hard/unmaintainable += count-profile cells 2/3), ScanTotals.total_X on two generic language totals, merge_profiles on symbolic "
-      "cells, one bucket per function (C02's evaluation), add_file/add_folder guards, aggregate computed children-first and applied "
-      "exactly once after the last add_file, no memoised attribute left stale by a mutator. Unusual path strings are not decided.",
+      "cells, one bucket per function (C02's evaluation); a codebase built through add_file from files at several depths (one-character "
+      "folder, a folder sorting before './', folders without files) and aggregated: language totals, folder registration and every "
+      "folder profile equal the reference; a new ScanTotals / LanguageTotals / Codebase is unaffected by an earlier filled instance "
+      "(defaults and class bodies evaluated once, as Python does). Unusual path strings are not decided.",
       "Trusted: CPython ast; sa.absint; C02-R1 category boundaries.",
-      "DESIGN.md 4/C07, 12.3")
+      "DESIGN.md 4/C07, 13")
 
 claim("C12", "other",
-      "sibling cross-check: pipeline signatures (walk, exclusion, lexer gate, decoding, lex constant, measuring, post-processing) extracted by def-use and compared (AST)",
-      "The two pipelines are compared component by component: hidden predicate, exclusion call and the provenance of its arguments for "
-      "directory walks and file arguments, ClassNotFound handling and language gate, decoding function, filter_comments constant, "
-      "tokens and language handed to scan_file, and that measurements are only filtered/sorted/printed. Printed text equality at run time is not decided.",
-      "Trusted: CPython ast; os.walk semantics.",
-      "DESIGN.md 4/C12")
+      "sibling cross-check by evaluation: scan_path and check_command interpreted on the same virtual tree and on the same undecodable file; what each hands to lex / scan_file / CheckResult.add is compared",
+      "Evaluated: reached through the root or a sub-directory, relative or absolute, check analyses exactly the files scan analyses below "
+      "that directory; named as a file, every file scan analyses is checked and every excluded or unsupported one is not; for the same "
+      "file both hand lex the same lexer, decoded text and filter_comments=False and hand scan_file lex's result and the registered "
+      "language; check lists exactly the measured functions longer than 30 lines, longest first, as the objects scan_file returned; "
+      "format_measurement prints line, column, length and name of its measurement. Printed text equality at run time is not decided.",
+      "Trusted: the virtual file system; sa.absint.",
+      "DESIGN.md 4/C12, 13")
 
 claim("C18", "other",
       "abstract interpretation of the overview and findings renderers on tagged reports (rich calls recorded as effects, nothing executed); first-generation role/field rules as fallback",
@@ -151,31 +166,36 @@ claim("C19", "other",
       "DESIGN.md 4/C19, 12.3")
 
 claim("C01", "other",
-      "def-use provenance of token lists, half-open interval comparison rule, provenance of the Measurement's arguments (AST)",
-      "Partial: three structural necessary conditions of the span and length clauses - every consumer of scope indices works on the same "
-      "comment-free list; nested functions are excluded with the half-open comparisons for exclusive ends; the span is built from the "
-      "header's first token and the last body token (block.end - 1) plus its text length, the name from the header, the length from "
-      "count_lines. That exactly the functions of a canonical grammar are discovered is algorithmic and NOT decided.",
-      "Trusted: TokenRange ends are exclusive (established from their constructors); CPython ast.",
-      "DESIGN.md 4/C01")
+      "abstract interpretation of the measuring pipeline (scan_file and everything below it, the language object a stub) on a token program with a reference result; evaluated bracket matching; boundary-condition rules on the indentation scan (AST terms)",
+      "Bounded: scan_file is interpreted from source - scope construction, pairing of headers and blocks, marker filter, nesting, "
+      "unfolding, count_lines, Measurement construction - on a token program with a nested function followed by a statement of its "
+      "parent, a one-line function, a suppressed function, comments inside and between bodies, a keyword before the name, deeper "
+      "nesting and a multi-line header; names, spans, lengths and order equal the reference, with and without nested functions, with "
+      "extra comments, with headers returned out of source order. Brace matching evaluated on all sequences over {open, close, other} "
+      "up to length 4; the Python suite rule by the terms its comparisons relate. That exactly the functions of each real grammar are "
+      "discovered (the seven extract_headers / extract_blocks on real pygments output) is NOT decided.",
+      "Trusted: sa.absint's semantics of the Python subset; the stub language stands for 'headers and blocks were found correctly'.",
+      "DESIGN.md 4/C01, 13")
 
 claim("C04", "other",
-      "def-use provenance to filter_tokens(raw) + abstract interpretation of filter_tokens / Token.is_whitespace / Token.is_comment over kind x text classes (AST)",
-      "Partial: codelimit's own three places where a comment or blank line could count - all consumers work on filter_tokens(raw) with default "
-      "flags; the filter's keep/drop table over 15 token-kind classes x 4 text classes is computed from the source and compared with the "
-      "specification; count_lines is the number of distinct token start lines. What pygments emits after an insertion is NOT decided.",
-      "Trusted: pygments token hierarchy facts (Whitespace under Text, Comment.* under Comment, empty Text tokens exist); str.isspace/strip semantics.",
-      "DESIGN.md 4/C04")
+      "abstract interpretation of filter_tokens / Token.is_whitespace / Token.is_comment over kind x text classes, and of the measuring pipeline with and without extra comments (reference comparison)",
+      "Partial: the filter's keep/drop table over 15 token-kind classes x 4 text classes (evaluated on instances of the repo's Token with "
+      "pygments types) equals the specification; scan_file interpreted on a token program gives the same names, spans and lengths when "
+      "comment tokens are added inside bodies, between functions and inside headers (the comment-free list is what every consumer of "
+      "scope indices works on - a consequence of the evaluated pipeline, not a separate provenance rule any more). What pygments emits "
+      "after an insertion is NOT decided.",
+      "Trusted: pygments token hierarchy facts (Whitespace under Text, Comment.* under Comment, empty Text tokens exist); str.isspace/strip semantics; sa.absint.",
+      "DESIGN.md 4/C04, 13")
 
 claim("C05", "other",
-      "symbolic evaluation of the sort key, order typestate dataflow through construction / filtering / folding, emission order of the tree walk, def-use pairing of loc with measurements (AST)",
-      "Partial: file total = sum of the lengths stored with it at the three construction sites; sort_headers orders by (line, column) of "
-      "the header's first token in the direction of its reverse parameter (key evaluated on an open term: lambdas, key factories, negated "
-      "keys); the order typestate is 'ascending position' at the return of scope construction and through build_scopes; single placement "
-      "in fold_scopes; pre-order unfolding; name token from the header's own match; span construction (shared with C01). Numeric bounds "
-      "are NOT decided.",
-      "Trusted: sorted/list.reverse semantics; CPython ast; sa.absint.",
-      "DESIGN.md 4/C05, 12.3")
+      "abstract interpretation of the scan path, the cache path and the reader for loc = sum of lengths; of the measuring pipeline for order, placement and spans; symbolic evaluation of the sort key; name-token rule (AST)",
+      "Partial: every entry produced by the interpreted scan_path (with and without a cached report: reused and re-analysed entries) and "
+      "every entry read back by the interpreted reader has loc = sum of the lengths of the measurements stored with it; sort_headers "
+      "orders by (line, column) of the header's first token in the direction of its reverse parameter (key evaluated on an open term); "
+      "the measuring pipeline, evaluated on a token program with headers returned out of order, lists functions in source order, each "
+      "once, parent before nested; the name token is drawn from the header's own match. Numeric bounds on real sources are NOT decided.",
+      "Trusted: sorted/list.reverse semantics; CPython ast; sa.absint; the virtual file system.",
+      "DESIGN.md 4/C05, 13")
 
 claim("C16", "other",
       "abstract evaluation of lex with the lexer's tuples and the newline table supplied (position formula on all pieces and breakpoints, filter flags), line-convention and order rules (AST)",
